@@ -2418,10 +2418,28 @@ class EscapeAnalysis:
             out |= self.call_raises(n, fi)
         return out
 
+    def _self_recursive_call(self, call: ast.Call, targets: list, fi: FunctionInfo) -> bool:
+        """The call re-enters the function it is written in on ANOTHER object (``child.render(..)`` inside ``render``):
+        a structural recursion, one Python frame per nesting level of the structure."""
+        if fi.is_lambda or not isinstance(call.func, ast.Attribute) or call.func.attr != fi.name or fi.cls is None:
+            return False
+        recv = call.func.value
+        if isinstance(recv, ast.Name) and recv.id in ("self", "cls"):
+            return False
+        if isinstance(recv, ast.Call) and dotted(recv.func) == "super":
+            return False
+        return any(isinstance(t, FunctionInfo) and t.fq == fi.fq for t in targets)
+
     def call_raises(self, call: ast.Call, fi: FunctionInfo) -> set[Esc]:
         out: set[Esc] = set()
         targets = self.g.resolve_call(call, fi)
         site = fi.module.site(call)
+        if self._self_recursive_call(call, targets, fi):
+            self.catalogue_sites[(fi.fq, short(call))] = (site, [B + "RecursionError"])
+            o = self.origin(fi, call, B + "RecursionError")
+            if o is not None:
+                out.add(o)
+                self.via.setdefault((fi.fq, o.ident()), (site, None))
         # catalogue
         cat = self.catalogue(call, targets, fi)
         if cat:
@@ -2456,7 +2474,7 @@ class EscapeAnalysis:
                 if tt.fq in seen:
                     continue
                 seen.add(tt.fq)
-                if self._tabled_nonraising_call(call, tt):
+                if self._tabled_nonraising_call(call, tt) or self._foreign_typed_receiver(call, fi, tt):
                     continue
                 for item in self.summ.get(tt.fq, ()):  # type: ignore[arg-type]
                     if kind is not None and self._edge_contract(kind, item, fi, call, tt):
@@ -2466,6 +2484,40 @@ class EscapeAnalysis:
                     out.add(item)
                     self.via.setdefault((fi.fq, item.ident()), (site, tt.fq))
         return out
+
+    def _foreign_typed_receiver(self, call: ast.Call, fi: FunctionInfo, target: FunctionInfo) -> bool:
+        """``x.m()`` where ``x`` is a parameter annotated with a class from outside the package (``node: nodes.Element``)
+        cannot be the package method of the same name that the name-based resolution offers."""
+        if fi.is_lambda or target.cls is None or not isinstance(call.func, ast.Attribute):
+            return False
+        recv0 = call.func.value
+        if not (isinstance(recv0, ast.Name) and recv0.id in ("self", "cls")) and not (isinstance(recv0, ast.Call) and dotted(recv0.func) == "super"):
+            # an untyped receiver resolved by method name only: objects of a class whose module the caller's module does
+            # not import (and is not itself) are not what the caller handles (docutils nodes also have deepcopy/walk/...)
+            typed = None
+            try:
+                typed = self.g.expr_type(recv0, fi)
+            except Exception:
+                typed = None
+            if typed is None and target.cls.module is not fi.module:
+                tm = target.cls.module.name
+                imported = {v for v in fi.module.imports.values()}
+                if not any(v == tm or v.startswith(tm + ".") for v in imported):
+                    return True
+        root = call.func.value
+        while isinstance(root, (ast.Subscript, ast.Attribute)):
+            root = root.value  # an element / attribute of a foreign object is foreign as well (docutils trees)
+        if not isinstance(root, ast.Name):
+            return False
+        nm = root.id
+        a = fi.node.args
+        ann = next((p_.annotation for p_ in a.posonlyargs + a.args + a.kwonlyargs if p_.arg == nm), None)
+        if ann is None or any(isinstance(x, ast.Name) and x.id == nm and isinstance(x.ctx, ast.Store) and not (isinstance(parent(x), ast.Assign) and isinstance(parent(x).value, ast.Call) and isinstance(parent(x).value.func, ast.Attribute) and isinstance(parent(x).value.func.value, ast.Name) and parent(x).value.func.value.id == nm) for x in fi.local_nodes()):
+            return False
+        names = [dotted(x) for x in ast.walk(ann) if isinstance(x, (ast.Name, ast.Attribute)) and dotted(x)]
+        full = [fi.module.resolve(n) for n in names if n not in ("None",)]
+        tops = [f_ for f_ in full if "." in f_]
+        return bool(tops) and all(not f_.startswith("myst_parser") for f_ in tops)
 
     def _tabled_nonraising_call(self, call: ast.Call, target: FunctionInfo) -> bool:
         # MdParserConfig() / config_cls(): defaults were validated when the class was defined/imported
